@@ -131,6 +131,9 @@ func c01(c *core.Ctx) {
 							bad = "field " + st.Field(i).Name() + " is a slice of messages"
 						}
 					}
+					if w := bufferish(st.Field(i).Type(), 0); w != "" && bad == "" {
+						bad = "field " + st.Field(i).Name() + " can hold or recycle message memory (" + w + ")"
+					}
 				}
 			}
 			c.Check(bad == "", k+":no-per-call-fields", nt.Obj().Pos(), "no channel / message container field in the long-lived type", "long-lived type: "+bad+" (shared by every RPC on it: cross-talk)")
@@ -173,6 +176,62 @@ func c01(c *core.Ctx) {
 				}
 			})
 		}
+		// package-level variables of the transport packages: none can hold message bytes or recycle buffers,
+		// none is written outside package initialisation
+		for _, suffix := range []string{"httpgrpc", "inprocgrpc", "internal", ""} {
+			path := core.ModulePath
+			if suffix != "" {
+				path += "/" + suffix
+			}
+			sp := p.SSAPkgs[path]
+			if sp == nil {
+				continue
+			}
+			var gnames []string
+			for name, m := range sp.Members {
+				if _, ok := m.(*ssa.Global); ok && name != "_" && !strings.HasPrefix(name, "init$") {
+					gnames = append(gnames, name)
+				}
+			}
+			sort.Strings(gnames)
+			for _, name := range gnames {
+				g := sp.Members[name].(*ssa.Global)
+				if !p.IsLibFile(g.Pos()) {
+					continue
+				}
+				key := "global:" + strings.TrimPrefix(path, core.ModulePath+"/") + "." + name
+				elem := g.Type().Underlying().(*types.Pointer).Elem()
+				if why := bufferish(elem, 0); why != "" {
+					c.Fail(key, g.Pos(), "package-level variable %s can hold or recycle message memory (%s): it is shared by every concurrent RPC of the process, so one call's bytes can surface in another", name, why)
+					continue
+				}
+				bad := ""
+				for _, f := range p.Funcs {
+					if f.Name() == "init" || strings.HasPrefix(f.Name(), "init#") || f.Synthetic != "" {
+						continue
+					}
+					core.Instrs(f, func(in ssa.Instruction) {
+						switch x := in.(type) {
+						case *ssa.Store:
+							if x.Addr == ssa.Value(g) {
+								bad = "is assigned in " + core.FuncName(f)
+							}
+						case *ssa.MapUpdate:
+							if core.OriginIs(x.Map, func(o ssa.Value) bool { u, ok := o.(*ssa.UnOp); return ok && u.X == ssa.Value(g) }) {
+								bad = "(a map) is updated in " + core.FuncName(f)
+							}
+						case *ssa.Call:
+							if b, ok := x.Call.Value.(*ssa.Builtin); ok && b.Name() == "delete" {
+								if core.OriginIs(x.Call.Args[0], func(o ssa.Value) bool { u, ok := o.(*ssa.UnOp); return ok && u.X == ssa.Value(g) }) {
+									bad = "(a map) has entries deleted in " + core.FuncName(f)
+								}
+							}
+						}
+					})
+				}
+				c.Check(bad == "", key, g.Pos(), "package-level variable of type "+core.TypeStr(elem)+": cannot hold message memory and is never written after initialisation", "package-level variable "+name+" "+bad+": state shared by all concurrent RPCs")
+			}
+		}
 		c.Ok("per-call-code:no-shared-writes", token.NoPos, "%d functions reachable from the per-call entry points, %d writes to long-lived objects / globals", len(fl), nstores)
 		// message channels are created in per-call code
 		for _, fn := range append(p.LibFuncs("inprocgrpc"), p.LibFuncs("httpgrpc")...) {
@@ -187,6 +246,22 @@ func c01(c *core.Ctx) {
 				}
 				c.Check(reach[fn], core.FuncName(fn)+":make(chan "+core.TypeStr(el)+")", mk.Pos(), "message channel created in per-call code", "message channel created outside per-call code (shared between calls)")
 			})
+		}
+		c.EndRule()
+	}
+
+	// ---------------------------------------------------------------- R6
+	if c.Rule("R6", "in-process: what the receiver gets is the message as it was when sent: the sender's message is snapshotted (cloned) on the sender's own goroutine before the call returns and never read later, and every copy helper that reports success has written the destination from the source (obligations shared with C06/R1 and C06/R5)", 10) {
+		for _, e := range inprocMsgEntries(p) {
+			for _, par := range e.params {
+				bad := msgEscape(p, e.fn, par)
+				c.Check(bad == "", core.FuncName(e.fn)+":"+par.Name()+":snapshot", e.fn.Pos(), "message parameter used only by the cloner, nil tests and reflection, synchronously", "message parameter "+par.Name()+" "+bad+": the peer can obtain a message that differs from the one sent (the caller may reuse its object once the call returned)")
+			}
+		}
+		for _, pk := range []string{"inprocgrpc", "internal"} {
+			for _, fn := range p.LibFuncs(pk) {
+				c06CopyWrites(c, fn)
+			}
 		}
 		c.EndRule()
 	}
@@ -784,4 +859,50 @@ func c01Framing(c *core.Ctx) {
 		})
 		c.Check(okMarshal, core.FuncName(hc.Fn)+":body-is-marshalled-response", bodyWrite.Pos(), "the body is codec.Marshal(resp)", "the body written is not the marshalled response")
 	}
+}
+
+// bufferish explains why a value of type t can hold or recycle message memory
+// ("" if it cannot): pools, byte buffers, channels, byte/message containers,
+// and structs or pointers that contain one.
+func bufferish(t types.Type, depth int) string {
+	if depth > 4 {
+		return ""
+	}
+	switch q := core.QualNamedOf(t); q {
+	case "sync.Pool", "sync.Map", "bytes.Buffer", "container/list.List", "container/ring.Ring", "strings.Builder", "bufio.Reader", "bufio.Writer":
+		return q
+	}
+	switch u := t.Underlying().(type) {
+	case *types.Chan:
+		return "a channel"
+	case *types.Slice:
+		if isMsgish(u.Elem()) || core.TypeStr(u.Elem()) == "byte" || core.TypeStr(u.Elem()) == "uint8" {
+			return "a slice of bytes/messages"
+		}
+		return bufferish(u.Elem(), depth+1)
+	case *types.Array:
+		if core.TypeStr(u.Elem()) == "byte" || core.TypeStr(u.Elem()) == "uint8" || isMsgish(u.Elem()) {
+			return "an array of bytes/messages"
+		}
+		return bufferish(u.Elem(), depth+1)
+	case *types.Map:
+		if isMsgish(u.Elem()) {
+			return "a map of messages"
+		}
+		return bufferish(u.Elem(), depth+1)
+	case *types.Pointer:
+		return bufferish(u.Elem(), depth+1)
+	case *types.Struct:
+		// only the repo's own structs and the std containers above are opened; foreign option structs
+		// (protojson options, peer.Peer) are configuration values
+		if q := core.QualNamedOf(t); q != "" && !strings.HasPrefix(q, core.ModulePath) {
+			return ""
+		}
+		for i := 0; i < u.NumFields(); i++ {
+			if w := bufferish(u.Field(i).Type(), depth+1); w != "" {
+				return "field " + u.Field(i).Name() + ": " + w
+			}
+		}
+	}
+	return ""
 }
